@@ -326,6 +326,31 @@ def run_shards(pid, tier, seed, nshards, timeout, only=None, params=None, env_ex
     return results
 
 
+def run_replay(pid, tier, seed, paths, timeout=1500):
+    """Suite replay: the repository's own tests for `paths` under pytest with this property's monitors attached."""
+    tmpdir = tempfile.mkdtemp(prefix="vf-replay-%s-" % pid)
+    out = os.path.join(tmpdir, "replay.json")
+    env = child_env({"VF_REPLAY_PROP": pid, "VF_REPLAY_OUT": out, "VF_REPLAY_TIER": tier, "VF_REPLAY_SEED": str(seed)})
+    cmd = [PY, "-m", "pytest", "-q", "-x" if False else "-q", "-p", "vf.pytest_taps", "-p", "no:cacheprovider", "--timeout=900",
+           "--continue-on-collection-errors"] + list(paths)
+    log = open(os.path.join(tmpdir, "pytest.log"), "w")
+    try:
+        subprocess.run(cmd, cwd=REPO, env=env, stdout=log, stderr=subprocess.STDOUT, timeout=timeout)
+        status = "ok"
+    except subprocess.TimeoutExpired:
+        status = "watchdog (suite replay)"
+    log.close()
+    d = None
+    try:
+        d = json.load(open(out))
+    except Exception:
+        if status == "ok":
+            status = "suite replay produced no dump: " + open(log.name).read()[-400:]
+    import shutil
+    shutil.rmtree(tmpdir, ignore_errors=True)
+    return d, status
+
+
 def merge(dumps):
     m = {"evaluations": 0, "descriptors": set(), "trivial": 0, "samples": [], "violations": {}, "taps": {},
          "seen": {}, "maxerr": {}, "counters": {}, "notes": [], "extra": []}
@@ -391,7 +416,13 @@ def main(argv=None):
         params, env_extra, nshards = mod.plan(tier, seed, nshards, only)
     else:
         params, env_extra = None, None
-    results = run_shards(pid, tier, seed, nshards, timeout, only=only, params=params, env_extra=env_extra)
+    replay_paths = getattr(mod, "REPLAY_PATHS", None)
+    if only and only.startswith("suite_replay:"):
+        results = [run_replay(pid, tier, seed, replay_paths)]
+    else:
+        results = run_shards(pid, tier, seed, nshards, timeout, only=only, params=params, env_extra=env_extra)
+        if replay_paths and not only and (tier == "thorough" or getattr(mod, "REPLAY_IN_QUICK", False)):
+            results.append(run_replay(pid, tier, seed, replay_paths))
     bad = [s for d, s in results if s != "ok"]
     m = merge([d for d, s in results])
     m["nshards"] = nshards
